@@ -464,9 +464,9 @@ def f12_volume_case():
 
 def run(ctx):
     import femio  # noqa
-    n_comp = ctx.n(42, 400)
-    n_transfer = ctx.n(8, 60)
-    n_merge = ctx.n(8, 60)
+    n_comp = ctx.n(80, 5000)
+    n_transfer = ctx.n(14, 400)
+    n_merge = ctx.n(14, 400)
     for name, obj in C.corpus_cases(PROP):
         r = replay(ctx, {'input': obj.get('input', obj)})
         ctx.count('corpus:' + ('fails' if r.get('fails') else 'passes'))
@@ -485,6 +485,11 @@ def run(ctx):
         m, _ = gen_case(ctx.rng, i)
         n = sum(len(b) for b in m['blocks'].values())
         merge_case(ctx, m, ctx.rng.choice([2, 3, 6, max(2, n // 2), n]))
+    # which configuration of the 'sum' transfer does the tree implement (Cfg pattern, DESIGN section 5 F12)?
+    doc, bro = ctx.dist.get('cfg:sum-as-documented', 0), ctx.dist.get('cfg:sum-broadcast(F12 unrepaired)', 0)
+    ctx.extra['cfg_detected'] = ('sum transfer as documented (theorems C20_sum_total / _back apply)' if doc and not bro else
+                                 'sum transfer broadcasts (N,f)/(1,N): F12 unrepaired (C20_sum_broadcast_counterexample)' if bro
+                                 else 'undetermined')
 
 
 def replay(ctx, obj):
